@@ -343,8 +343,11 @@ func (e *peEnv) eval(list []ast.Stmt) (canFalse, canTrue, falls bool) {
 			var chosen, def *ast.CaseClause
 			isNameSwitch := false
 			if call, ok := s.Tag.(*ast.CallExpr); ok {
-				if se, ok := call.Fun.(*ast.SelectorExpr); ok && se.Sel.Name == "Name" {
-					isNameSwitch = true
+				switch f := call.Fun.(type) {
+				case *ast.SelectorExpr:
+					isNameSwitch = strings.HasSuffix(f.Sel.Name, "Name")
+				case *ast.Ident:
+					isNameSwitch = strings.HasSuffix(f.Name, "Name")
 				}
 			}
 			if !isNameSwitch {
@@ -444,6 +447,91 @@ func c08builtins(c *core.Ctx, r *core.Report) {
 		}
 	}
 	r.Floor("R08.builtins", 20, "16 builtin names x arities")
+	// R08.builtins.bytype: the name that selects the builtin model must be the name of an *ssa.Builtin,
+	// not the name of an arbitrary ssa.Value (user functions, parameters and variables can be named like builtins)
+	for _, fname := range []string{"isHandledBuiltinCall", "doBuiltinCall"} {
+		fn := c.Func("analysis/dataflow", fname)
+		if fn == nil {
+			continue
+		}
+		nCmp, bad := 0, 0
+		for _, b := range fn.Blocks {
+			for _, ins := range b.Instrs {
+				bo, ok := ins.(*ssa.BinOp)
+				if !ok || bo.Op != token.EQL {
+					continue
+				}
+				var str ssa.Value
+				if k, isK := bo.Y.(*ssa.Const); isK && k.Value != nil && k.Value.Kind() == constant.String {
+					str = bo.X
+				} else if k, isK := bo.X.(*ssa.Const); isK && k.Value != nil && k.Value.Kind() == constant.String {
+					str = bo.Y
+				}
+				if str == nil {
+					continue
+				}
+				k := bo.Y
+				if _, isK := k.(*ssa.Const); !isK {
+					k = bo.X
+				}
+				name := constant.StringVal(k.(*ssa.Const).Value)
+				if _, isBuiltinName := builtinArities[name]; !isBuiltinName {
+					continue
+				}
+				nCmp++
+				if !fromBuiltinName(c, str, 0) {
+					bad++
+				}
+			}
+		}
+		r.Check(nCmp > 0 && bad == 0, "R08.builtins.bytype", "analysis/dataflow."+fname+"|name-of-ssa.Builtin", c.Pos(fn.Pos()),
+			fmt.Sprintf("all %d comparisons with builtin names are on the name of a value type-tested as *ssa.Builtin", nCmp),
+			fmt.Sprintf("%d of %d comparisons with builtin names are on Value.Name() of an arbitrary value: a user function (or parameter, variable) named like a builtin is modelled as that builtin, gets no call edges, and flows through it are lost", bad, nCmp))
+	}
+}
+
+// fromBuiltinName: the string value originates from (*ssa.Builtin).Name (possibly through a repository helper or a phi with "").
+func fromBuiltinName(c *core.Ctx, v ssa.Value, depth int) bool {
+	if depth > 6 {
+		return false
+	}
+	switch x := v.(type) {
+	case *ssa.Call:
+		if sc := x.Call.StaticCallee(); sc != nil {
+			if sc.Name() == "Name" && sc.Signature.Recv() != nil && core.SSATypeName(sc.Signature.Recv().Type()) == "Builtin" {
+				return true
+			}
+			if c.IsRepoFunc(sc) && sc.Blocks != nil {
+				// helper: every non-constant return value comes from (*ssa.Builtin).Name
+				okAll, n := true, 0
+				for _, b := range sc.Blocks {
+					if ret, ok := b.Instrs[len(b.Instrs)-1].(*ssa.Return); ok && len(ret.Results) == 1 {
+						if k, isK := ret.Results[0].(*ssa.Const); isK && k.Value != nil && constant.StringVal(k.Value) == "" {
+							continue
+						}
+						n++
+						if !fromBuiltinName(c, ret.Results[0], depth+1) {
+							okAll = false
+						}
+					}
+				}
+				return okAll && n > 0
+			}
+		}
+	case *ssa.Phi:
+		n := 0
+		for _, e := range x.Edges {
+			if k, isK := e.(*ssa.Const); isK && k.Value != nil && k.Value.Kind() == constant.String && constant.StringVal(k.Value) == "" {
+				continue
+			}
+			n++
+			if !fromBuiltinName(c, e, depth+1) {
+				return false
+			}
+		}
+		return n > 0
+	}
+	return false
 }
 
 func c08monotone(c *core.Ctx, r *core.Report) {
